@@ -346,7 +346,8 @@ func resigned(e *emitter, r *hx.Rng, b *base) {
 		its := withCMS(o)
 		put(v.name, 0, its)
 		// an unvouched alternate of a stronger type over altered code.  With the plist attribute the count catches it;
-		// without it nothing does: finding F-CSV-1 (prot=1: it must be rejected)
+		// without it nothing did on the original code (finding F-CSV-1, repaired by 994e09d: more than one directory
+		// needs the signed plist).  prot=1: it must be rejected
 		ad := newDir(alt[:b.ss], other, flags, ident, sp, false)
 		e.verify(n+":"+v.name+"+alt-dir-stronger-code-altered", 1, embed(alt, b.ss, b.sl, joinSuper(b.magic, append(append([]item(nil), its...), item{0x1000, ad}))), info, res, false)
 		// the same type as the signed one: CDHashes2 (a map by hash function) trips over it, nothing else does
@@ -547,6 +548,14 @@ func twoDirs(e *emitter, r *hx.Rng, b *base) {
 	o.plist = plistXML([][]byte{dg2[:20], dg2[:20]})
 	o.cdh = o.cdh[1:]
 	put("same-alg-pair-listed-last-twice", 0, b.f, mk([]item{{0, c}, {0x1000, c2}}, mkCMS(o)))
+	// stated gap same_alg_unvouched_directory_accepted: a signer that lists its SHA-256 digest TWICE lets an attacker's
+	// SHA-256 directory (over altered code) sit between the primary and the signer's alternate: position 2 of the list
+	// is compared with computed[SHA-256] = the LAST SHA-256 directory, the middle one is covered by nothing and is bestDir
+	o = stdCMS(b.key, crypto.SHA256, [][]byte{a, c})
+	o.plist = plistXML([][]byte{dga[:20], dgc[:20], dgc[:20]})
+	put("same-alg-middle-dir-unvouched-list-repeats", 0, alt, mk([]item{{0, a}, {0x1000, ac}, {0x1001, c}}, mkCMS(o)))
+	// the same superblob under the signer's ordinary list: count 3 vs 2
+	put("same-alg-middle-dir-unvouched", 1, alt, mk([]item{{0, a}, {0x1000, ac}, {0x1001, c}}, cmsAC))
 }
 
 // blobMode: csblob.Verify + VerifyPages as lib/fruit/dmg uses them (rep-specific parameter, one page)
@@ -734,7 +743,8 @@ func genWrap(e *emitter, r *hx.Rng, positiveOnly bool) {
 	emit("thin:code-flip", 1, false, info, res, altered(slices[0], ss0))
 	emit("fat1:none", 0, true, info, res, slices[0])
 	emit("fat2:none", 0, true, info, res, slices[0], slices[1])
-	// finding F-CSV-2: the bundle's Info.plist / CodeResources are not checked for the slices of a fat executable
+	// finding F-CSV-2 (repaired by 91159af): the original code did not check the bundle's Info.plist / CodeResources for
+	// the slices of a fat executable
 	emit("fat1:info-plist-altered", 1, true, bytes.Replace(info, []byte("com.example.verif"), []byte("com.example.verig"), 1), res, slices[0])
 	emit("fat2:resources-altered", 1, true, info, flipAt(res, 20), slices[0], slices[1])
 	ss, _, _ := locateLC(slices[1])
